@@ -1,9 +1,11 @@
 #!/bin/sh
 # apply every seeded change in turn and run the check of its property (plus extra ones given in seeded/<id>/also)
 cd /verif
+: > seeded/RESULTS.txt
 for d in seeded/*/; do
   id=$(basename $d); prop=${id%%-*}
   also=$(cat $d/also 2>/dev/null)
   [ -f MANIFEST.json ] && grep -q "\"property_id\": \"$prop\"" MANIFEST.json || { echo "seed=$id: no check for $prop yet"; continue; }
-  tools/try_seed.sh $id $prop $also
+  tools/try_seed.sh $id $prop $also | tee -a seeded/RESULTS.txt
 done
+python3 tools/seed_table.py
